@@ -45,6 +45,9 @@ type Scn struct {
 	// Form "caddyfile": the same options written as a Caddyfile block and parsed by the
 	// handler's UnmarshalCaddyfile (the configured limits are the ones written down)
 	Form string `json:"form,omitempty"`
+	// Second "loose": a second throttle handler follows in the same route with limits of the
+	// same kinds, a thousand times looser - the first handler's envelope must still hold
+	Second string `json:"second,omitempty"`
 }
 
 func throttleConfig(sc *Scn) map[string]any {
@@ -162,7 +165,18 @@ func execute(x *explore.Exec, sc *Scn) *result {
 		ctx, cancel := caddy.NewContext(caddy.Context{Context: context.Background()})
 		defer cancel()
 		th := throttleConfig(sc)
-		routes := []map[string]any{{"handle": []map[string]any{th, {"handler": "h_sink", "buf": sc.Buf}}}}
+		hs := []map[string]any{th}
+		if sc.Second == "loose" {
+			th2 := map[string]any{"handler": "throttle"}
+			if sc.Rate > 0 {
+				th2["read_bytes_per_second"], th2["read_burst_size"] = sc.Rate*1000, 100000
+			}
+			if sc.TotalRate > 0 {
+				th2["total_read_bytes_per_second"], th2["total_read_burst_size"] = sc.TotalRate*1000, 100000
+			}
+			hs = append(hs, th2)
+		}
+		routes := []map[string]any{{"handle": append(hs, map[string]any{"handler": "h_sink", "buf": sc.Buf})}}
 		srv := &layer4.Server{}
 		if err := json.Unmarshal(hm.J(routes), &srv.Routes); err != nil {
 			panic(err)
@@ -330,6 +344,21 @@ func scenarios(tier string, yield func(any) bool) {
 			for _, sz := range []int{8, 20} {
 				if !yield(&Scn{Rate: p.rate, Burst: p.burst, TotalRate: t.rate, TotalBurst: t.burst, Size: sz, Buf: 64, Supply: "all", Conns: 1, Form: "caddyfile"}) {
 					return
+				}
+			}
+		}
+	}
+	// two throttle handlers in one route, the stricter first
+	for _, conns := range []int{1, 2} {
+		for _, p := range per {
+			for _, t := range tot {
+				if p.rate == 0 && t.rate == 0 || p.rate >= 1000 {
+					continue
+				}
+				for _, buf := range []int{5, 64} {
+					if !yield(&Scn{Rate: p.rate, Burst: p.burst, TotalRate: t.rate, TotalBurst: t.burst, Size: 8, Buf: buf, Supply: "all", Conns: conns, Second: "loose"}) {
+						return
+					}
 				}
 			}
 		}
